@@ -66,7 +66,7 @@ fn variant(kind: Kind, rng: &mut Rng) -> Params {
     match kind {
         Kind::Macd | Kind::Ppo => p.p = [per(rng), per(rng), per(rng).min(50)],
         Kind::Slow => p.p[1] = per(rng).min(50),
-        Kind::Bb | Kind::Kc | Kind::Ce => p.k = *rng.pick(&[0.0, 0.5, 2.0, 3.0]),
+        Kind::Bb | Kind::Kc | Kind::Ce => p.k = *rng.pick(&[0.0, 0.5, 2.0, 3.0, 25.0]),
         _ => {}
     }
     p
@@ -95,6 +95,26 @@ fn run_twins(rep: &mut Report, p: &Params, xs: &[In], pow2: f64, arb: f64, d: f6
     let ys2: Vec<In> = xs.iter().map(|x| scale_in(x, pow2)).collect();
     let ysa: Vec<In> = xs.iter().map(|x| scale_in(x, arb)).collect();
     let yss: Vec<In> = xs.iter().map(|x| shift_in(x, d)).collect();
+    // every third stream: all four twins are recycled first - each consumes its own image (scaled /
+    // shifted) of an unrelated prefix and is reset(); the relations must hold for the whole program
+    if xs.len() % 3 == 0 {
+        let k = xs.len().min(2 * p.max_period().min(40) + 3);
+        for x in xs[..k].iter().rev() {
+            let y = match x {
+                In::S(v) => In::S(v * 1.5 + 0.25),
+                In::B(b) => In::B(Bar { v: b.v + 1.0, ..b.scale_prices(1.5) }),
+            };
+            let _ = a.feed(&y);
+            let _ = b2.feed(&scale_in(&y, pow2));
+            let _ = ba.feed(&scale_in(&y, arb));
+            let _ = bs.feed(&shift_in(&y, d));
+        }
+        let _ = a.reset();
+        let _ = b2.reset();
+        let _ = ba.reset();
+        let _ = bs.reset();
+        rep.count("twin_streams_on_recycled_instances");
+    }
     let (mut alive2, mut alivea, mut alives) = (true, true, true);
     let shift_applies = matches!(kind, Kind::Sma | Kind::Ema | Kind::Wma | Kind::Min | Kind::Max | Kind::Bb | Kind::Kc | Kind::Ce | Kind::Mad | Kind::Tr | Kind::Atr | Kind::Macd | Kind::Sd | Kind::Fast);
     let kk = p.k.abs().max(1.0);
